@@ -24,4 +24,37 @@ def wrapFrameB (ft ft' : FT) : Bool := all2B wrapRelB ft ft'
     token ends; checked per run until `lex_char_boundaries` is proved) -/
 def contentsNdB (raw : List RawTok) : Bool := raw.all fun t => nd t.content
 
+/-- side conditions of the reconstruction theorems, evaluated on the final token list -/
+def isSingleLineCommentK : Kind → Bool
+  | .tComment .cInlineLine => true
+  | .tComment .cIndividualLine => true
+  | _ => false
+
+/-- no safety-net newline is inserted in front of any ignored token (C07 `verbatim_emitted`) -/
+def safeRunAllGo : Bool → FT → Bool
+  | _, [] => true
+  | mb, t :: r =>
+    (!t.fmt.ignored || !(mb && !containsByte 0x0A t.tok.ws && !(t.tok.kind == .tEof))) &&
+      safeRunAllGo (isSingleLineCommentK t.tok.kind) r
+
+/-- the safety net does not fire at all -/
+def noSafetyNetGo : Bool → FT → Bool
+  | _, [] => true
+  | mb, t :: r =>
+    !(mb && !(t.tok.kind == .tEof) &&
+        (if t.fmt.ignored then !containsByte 0x0A t.tok.ws else t.fmt.nl == 0)) &&
+      noSafetyNetGo (isSingleLineCommentK t.tok.kind) r
+
+def canonFmtB (f : FmtData) : Bool :=
+  decide (f.nl ≤ 2) && (f.nl == 0 || f.sp == 0) && (f.nl != 0 || (f.ind == 0 && f.cont == 0 && decide (f.sp ≤ 1)))
+
+def canonAll (ft : FT) : Bool :=
+  ft.zipIdx.all fun (t, i) => t.fmt.ignored || (canonFmtB t.fmt && (i != 0 || (t.fmt.nl == 0 && t.fmt.sp == 0)))
+
+def noNlAll (ft : FT) : Bool :=
+  ft.all fun t => !containsByte 0x0A t.tok.content && (!t.fmt.ignored || !containsByte 0x0A t.tok.ws)
+
+def noTabAll (ft : FT) : Bool :=
+  ft.all fun t => !containsByte 0x09 t.tok.content && (!t.fmt.ignored || !containsByte 0x09 t.tok.ws)
+
 end Pasfmt
